@@ -962,6 +962,11 @@ theorem V.beq_refl : ∀ v : V, V.beq v v = true
   | .int i => by simp [V.beq]
   | .list xs => by simp [V.beq, V.beqL_refl xs]
   | .tup xs => by simp [V.beq, V.beqL_refl xs]
+  | .bool b => by simp [V.beq]
+  | .flt i => by simp [V.beq]
+  | .str s => by simp [V.beq]
+  | .obj c => by simp [V.beq]
+  | .ref i v => by simp [V.beq, V.beq_refl v]
 theorem V.beqL_refl : ∀ xs : List V, V.beqL xs xs = true
   | [] => by simp [V.beqL]
   | x :: xs => by simp [V.beqL, V.beq_refl x, V.beqL_refl xs]
@@ -1001,14 +1006,23 @@ theorem checkTake_of_spec (kinds : List Kind) (xs : List V) (tail : Option Err) 
 
 mutual
 theorem V.eq_of_beq : ∀ a b : V, V.beq a b = true → a = b
-  | .none, .none, _ => rfl
-  | .int i, .int j, h => by simp [V.beq] at h; rw [h]
+  | .none, b, h => by cases b <;> first | rfl | simp [V.beq] at h
+  | .int i, b, h => by cases b <;> first | (simp [V.beq] at h; rw [h]) | simp [V.beq] at h
+  | .bool i, b, h => by cases b <;> first | (simp [V.beq] at h; rw [h]) | simp [V.beq] at h
+  | .flt i, b, h => by cases b <;> first | (simp [V.beq] at h; rw [h]) | simp [V.beq] at h
+  | .str i, b, h => by cases b <;> first | (simp [V.beq] at h; rw [h]) | simp [V.beq] at h
+  | .obj i, b, h => by cases b <;> first | (simp [V.beq] at h; rw [h]) | simp [V.beq] at h
   | .list xs, .list ys, h => by simp only [V.beq] at h; rw [V.eq_of_beqL xs ys h]
   | .tup xs, .tup ys, h => by simp only [V.beq] at h; rw [V.eq_of_beqL xs ys h]
-  | .none, .int _, h | .none, .list _, h | .none, .tup _, h => by simp [V.beq] at h
-  | .int _, .none, h | .int _, .list _, h | .int _, .tup _, h => by simp [V.beq] at h
-  | .list _, .none, h | .list _, .int _, h | .list _, .tup _, h => by simp [V.beq] at h
-  | .tup _, .none, h | .tup _, .int _, h | .tup _, .list _, h => by simp [V.beq] at h
+  | .ref i a, .ref j b, h => by
+    simp only [V.beq, Bool.and_eq_true, beq_iff_eq] at h
+    rw [h.1, V.eq_of_beq a b h.2]
+  | .list _, .none, h | .list _, .int _, h | .list _, .tup _, h | .list _, .bool _, h | .list _, .flt _, h
+  | .list _, .str _, h | .list _, .obj _, h | .list _, .ref _ _, h => by simp [V.beq] at h
+  | .tup _, .none, h | .tup _, .int _, h | .tup _, .list _, h | .tup _, .bool _, h | .tup _, .flt _, h
+  | .tup _, .str _, h | .tup _, .obj _, h | .tup _, .ref _ _, h => by simp [V.beq] at h
+  | .ref _ _, .none, h | .ref _ _, .int _, h | .ref _ _, .list _, h | .ref _ _, .bool _, h | .ref _ _, .flt _, h
+  | .ref _ _, .str _, h | .ref _ _, .obj _, h | .ref _ _, .tup _, h => by simp [V.beq] at h
 theorem V.eq_of_beqL : ∀ as bs : List V, V.beqL as bs = true → as = bs
   | [], [], _ => rfl
   | a :: as, b :: bs, h => by
@@ -1084,7 +1098,7 @@ theorem fold_base (sub : BaseFn) (s : Option V) (c : Core) (hc : c.kind = .base 
         subst h
         simp [foldCore, Core.push, hc, hy, ih r hr, Tr.prepend]
       | some sv =>
-        by_cases hv : (v == sv) = true
+        by_cases hv : v.is sv = true
         · simp only [hv, ↓reduceIte, pure, Except.pure, Except.ok.injEq] at h
           subst h
           simp [foldCore, Core.push, hc, hy, hv]
@@ -1395,21 +1409,21 @@ theorem attach_consHead (cur : List V) (x : V) (gs : List (List V)) (h : gs ≠ 
 
 def grouping (sep : Sep) : Bool := match sep with | .none => true | _ => false
 
-/-- `x in frozenset(sep)` can be evaluated (`x` is hashable) -/
+/-- the separator test can be evaluated on `x` (`x` is hashable for `x in frozenset(sep)`, the
+    callable separator / the item's `==` does not raise) -/
 def sepHashOK (sep : Sep) (x : V) : Bool :=
-  match sep with
-  | .set _ => x.hashable
-  | .fn f => (match f x with | .ok _ => true | .error _ => false)
-  | _ => true
+  match isSepE sep x with
+  | .ok _ => true
+  | .error _ => false
 
-theorem sepFnErr_none (f : Fn) : ∀ xs : List V, sepFnErr f xs = none → ∀ x ∈ xs, sepHashOK (.fn f) x = true := by
+theorem sepErr_none (sep : Sep) : ∀ xs : List V, sepErr sep xs = none → ∀ x ∈ xs, sepHashOK sep x = true := by
   intro xs
   induction xs with
   | nil => intro _ x hx; cases hx
   | cons y ys ih =>
     intro h x hx
-    simp only [sepFnErr] at h
-    cases hy : f y with
+    simp only [sepErr] at h
+    cases hy : isSepE sep y with
     | error e => rw [hy] at h; cases h
     | ok v =>
       rw [hy] at h
@@ -1419,15 +1433,10 @@ theorem sepFnErr_none (f : Fn) : ∀ xs : List V, sepFnErr f xs = none → ∀ x
 
 theorem isSepE_ok (sep : Sep) (x : V) (h : sepHashOK sep x = true) :
     isSepE sep x = .ok (sepFn sep x) := by
-  cases sep with
-  | none => rfl
-  | scalar v => rfl
-  | set vs => simp only [sepHashOK] at h; simp [isSepE, sepFn, h]
-  | fn f =>
-    simp only [sepHashOK] at h
-    cases hf : f x with
-    | error e => rw [hf] at h; cases h
-    | ok y => simp [isSepE, sepFn, hf]
+  simp only [sepHashOK] at h
+  cases hf : isSepE sep x with
+  | error e => rw [hf] at h; cases h
+  | ok y => simp [sepFn, hf]
 
 def splitActive (m : Option Nat) (cnt : Nat) : Bool :=
   match m with
@@ -1505,7 +1514,7 @@ theorem fold_split (sep : Sep) (m : Option Nat) : ∀ (xs : List V) (c : Core), 
 
 theorem fold_unique (key : Fn) : ∀ (xs ks : List V) (c : Core) (before : List V), c.kind = .unique key →
     xs.mapM key = .ok ks → ks.all V.hashable = true → (∀ k, k ∈ c.buf ↔ k ∈ before) →
-    foldCore c xs .eof = ⟨uniqueAux before (xs.zip ks), .eof⟩ := by
+    foldCore c xs .eof = ⟨uniqueAux before (xs.zip (ks.map V.key)), .eof⟩ := by
   intro xs
   induction xs with
   | nil =>
@@ -1519,8 +1528,8 @@ theorem fold_unique (key : Fn) : ∀ (xs ks : List V) (c : Core) (before : List 
     simp only [pure, Except.pure, Except.ok.injEq] at hk
     subst hk
     simp only [List.all_cons, Bool.and_eq_true] at hh
-    by_cases hseen : k ∈ c.buf
-    · have h := ih ks' c (before ++ [k]) hc hks' hh.2 (by
+    by_cases hseen : k.key ∈ c.buf
+    · have h := ih ks' c (before ++ [k.key]) hc hks' hh.2 (by
         intro k'
         simp only [List.mem_append, List.mem_singleton, ← hinv k']
         constructor
@@ -1528,12 +1537,12 @@ theorem fold_unique (key : Fn) : ∀ (xs ks : List V) (c : Core) (before : List 
         · rintro (h | rfl)
           · exact h
           · exact hseen)
-      have hb : k ∈ before := (hinv k).mp hseen
+      have hb : k.key ∈ before := (hinv k.key).mp hseen
       simp [foldCore, Core.push, hc, hkx, hh.1, hseen, h, Tr.prepend, uniqueAux, hb]
-    · have h := ih ks' { c with buf := c.buf ++ [k] } (before ++ [k]) hc hks' hh.2 (by
+    · have h := ih ks' { c with buf := c.buf ++ [k.key] } (before ++ [k.key]) hc hks' hh.2 (by
         intro k'
         simp only [List.mem_append, hinv k'])
-      have hb : k ∉ before := fun hb => hseen ((hinv k).mpr hb)
+      have hb : k.key ∉ before := fun hb => hseen ((hinv k.key).mpr hb)
       simp only [hc] at h
       simp [foldCore, Core.push, hc, hkx, hh.1, hseen, h, Tr.prepend, uniqueAux, hb]
 
@@ -1583,32 +1592,16 @@ theorem stage_ref (k : Kind) (hw : k.wf = true) (xs ys : List V) (h : refE k xs 
     have := fold_windowed size hw xs (Core.init (.windowed size)) rfl (by simp [Core.init]; omega)
     simpa [stageTr, Kind.initStopped, Core.init] using this
   | split sep m =>
-    have hall : ∀ x ∈ xs, sepHashOK sep x = true := by
-      intro x hx
-      cases sep with
-      | none => rfl
-      | scalar v => rfl
-      | set vs =>
-        by_cases hh : xs.all V.hashable = true
-        · exact List.all_eq_true.mp hh x hx
-        · simp [refE, splitE, hh] at h
-      | fn f =>
-        cases he : sepFnErr f xs with
-        | none => exact sepFnErr_none f xs he x hx
-        | some e => simp [refE, splitE, he] at h
+    simp only [refE, splitE] at h
+    cases he : sepErr sep xs with
+    | some e => rw [he] at h; cases h
+    | none =>
+    rw [he] at h
+    have hall : ∀ x ∈ xs, sepHashOK sep x = true := sepErr_none sep xs he
     have hys : ys = (splitL (sepFn sep) (grouping sep) true m xs).map V.list := by
-      cases sep with
-      | none => simpa [refE, splitE, grouping] using h.symm
-      | scalar v => simpa [refE, splitE, grouping] using h.symm
-      | set vs =>
-        by_cases hh : xs.all V.hashable = true
-        · simp only [refE, splitE, hh, Bool.not_true, Bool.false_eq_true, ↓reduceIte, Except.ok.injEq] at h
-          simpa [grouping] using h.symm
-        · simp [refE, splitE, hh] at h
-      | fn f =>
-        cases he : sepFnErr f xs with
-        | none => simpa [refE, splitE, he, grouping] using h.symm
-        | some e => simp [refE, splitE, he] at h
+      simp only [Except.ok.injEq] at h
+      rw [← h]
+      cases sep <;> rfl
     subst hys
     have := fold_split sep m xs (Core.init (.split sep m)) rfl hall
     simp only [Core.init, List.isEmpty_nil, Nat.sub_zero] at this
